@@ -175,7 +175,13 @@ func c14Run(c *fw.Ctx, id string, cs c14Case, model []modelRow, opid string) {
 	defer release()
 	var faulted, heldOpen, lostOpen int32
 	slowClose := cs.Scan.Seed%3 == 0 // the servers take their time to acknowledge close requests
+	slowRenew := cs.Scan.Seed%4 == 1 // renewals are answered only when the case is over
 	cl.OnRequest = func(req *sim.Request) *sim.Reply {
+		if slowRenew && req.Scan != nil && req.Scan.GetRenew() {
+			// Close, Next and cancellation must not wait for a renewal in flight
+			c.Count("renewals_left_unanswered", 1)
+			return &sim.Reply{HoldDefault: hold}
+		}
 		if slowClose && req.Scan != nil && req.Scan.GetCloseScanner() && req.Scan.ScannerId != nil {
 			// (handled at once - the scanner is released - but acknowledged only when
 			// the case is over: Close and Next must not wait for it)
